@@ -10,8 +10,10 @@ import tempfile
 import numpy as np
 
 from .. import cache_runner as CR
+from ..core import scratch_dir
 
 ID = "C19"
+SHAPES = False      # layout / object-history dimensions do not apply: the inputs are names and files
 MODULES = ["TWV.Properties.C19", "TWV.Properties.C18"]
 TRANSLATORS = ["t2_tables"]
 TIE = ("trace validation of the real loader against the protocol model: urlretrieve / _sha256 / np.loadtxt / pickle.dump / "
@@ -77,6 +79,10 @@ def cases(rng, tier):
                 for entry in ("none", "good"):
                     yield {"kind": "crash", "retries": 2, "script": pre + ["g"], "crash_at": list(cp), "gz": gz,
                            "entry": entry, "even": entry == "good"}
+                    if not pre:
+                        # the data home on another file system than the system temporary directory
+                        yield {"kind": "crash", "retries": 2, "script": ["g"], "crash_at": list(cp), "gz": gz,
+                               "entry": entry, "even": entry == "good", "home_fs": "other"}
     # orderings of two real datasets (fake network): results must not depend on what was loaded before
     from .c18 import tables
     names = [n for k, v in tables()["documented"].items() if k != "sandvine" for n in v]
@@ -85,8 +91,8 @@ def cases(rng, tier):
     while len(pairs) < npairs:
         a, b2 = rng.sample(names, 2)
         pairs.append((a, b2))
-    for a, b2 in pairs:
-        yield {"kind": "pair", "first": a, "second": b2}
+    for i, (a, b2) in enumerate(pairs):
+        yield {"kind": "pair", "first": a, "second": b2} if i % 4 else {"kind": "pair", "first": a, "second": b2, "home_fs": "other"}
     # schedules
     ns = {"quick": 20, "thorough": 300}.get(tier, 6)
     for i in range(ns):
@@ -118,7 +124,7 @@ def load_pair(c):
     by_url = {r["url"]: r for r in tables()["remotes"]}
     res = {}
     for mode in ("alone", "after"):
-        home = tempfile.mkdtemp(prefix="twv-c19p-")
+        home = scratch_dir("twv-c19p-", other_fs=c.get("home_fs") == "other")
         paths = {}
 
         def fake_retrieve(url, path):
@@ -152,7 +158,7 @@ def load_pair(c):
 def run_impl(c):
     if c["kind"] == "pair":
         return load_pair(c)
-    home = tempfile.mkdtemp(prefix="twv-c19-")
+    home = scratch_dir("twv-c19-", other_fs=c.get("home_fs") == "other")
     try:
         if c["kind"] == "script":
             if c["entry"] == "good":
